@@ -1,5 +1,8 @@
 use std::panic;
-use vh::{observe::{observe, Ctx}, read_ndjson, write_ndjson};
+use serde_json::Value;
+use vh::{observe::{observe, Ctx}, pure, read_ndjson, write_ndjson};
+
+fn read_json(path: &str) -> Value { serde_json::from_str(&std::fs::read_to_string(path).unwrap_or_else(|e| panic!("read {path}: {e}"))).unwrap() }
 
 fn main() {
     let args: Vec<String> = std::env::args().collect();
@@ -13,6 +16,26 @@ fn main() {
             let mut ctx = Ctx::new();
             let out: Vec<_> = insts.iter().map(|i| observe(i, &modes, &mut ctx, seed)).collect();
             write_ndjson(&args[3], &out);
+        }
+        Some("valcmp") => { // vh valcmp <universe.json> <out.ndjson>   (one line per value: eq / cmp against every value)
+            let u = read_json(&args[2]);
+            let r = pure::valcmp(&u);
+            write_ndjson(&args[3], r["rows"].as_array().unwrap());
+        }
+        Some("candall") => { // vh candall <cands.json> <out.ndjson>
+            let r = pure::cand_all(&read_json(&args[2]));
+            write_ndjson(&args[3], &r);
+        }
+        Some("typeall") => { write_ndjson(&args[3], &vh::pure2::type_all(&read_json(&args[2]))); }
+        Some("decodeall") => { write_ndjson(&args[3], &vh::pure2::decode_all(&read_json(&args[2]))); }
+        Some("map") => { // vh map <fn> <cases.ndjson> <out.ndjson>
+            let cases = read_ndjson(&args[3]);
+            let f: fn(&Value) -> Value = match args[2].as_str() {
+                "cand" => pure::cand_case, "typepair" => pure::type_pair, "typeone" => pure::type_one, "valround" => pure::value_roundtrip,
+                o => { eprintln!("unknown map fn {o}"); std::process::exit(2) }
+            };
+            let out: Vec<Value> = cases.iter().map(f).collect();
+            write_ndjson(&args[4], &out);
         }
         other => { eprintln!("unknown subcommand {other:?}"); std::process::exit(2); }
     }
